@@ -2,8 +2,8 @@
 
 Explicit-state BFS to a fixed point.  State = (real NMEA2000Decoder, environment).
 The environment is S cyclic senders; events: deliver frame 0 of the current
-message (once, first), deliver non-first frame j (any order / multiplicity),
-sender moves on (drops whatever was not delivered).  Oracle = a set of frames
+message (once, first), deliver non-first frame j (any order / multiplicity), deliver a late non-first frame of the
+previous message while the current one is in progress, sender moves on (drops whatever was not delivered).  Oracle = a set of frames
 seen per stream for the current message."""
 from __future__ import annotations
 
@@ -92,6 +92,12 @@ def make_model(config):
                 evs.append(["f0", i])
             for j in range(1, nfr):
                 evs.append(["f", i, j])
+            # a late / duplicated continuation frame of the PREVIOUS message of the stream while the current one is being received
+            if sent0 and not done and len(st.cycle) > 1:
+                prev = (cur - 1) % len(st.cycle)
+                if st.cycle[prev][0] != st.cycle[cur][0]:
+                    for j in range(1, len(st.frames[prev])):
+                        evs.append(["old", i, j])
             evs.append(["next", i])
         return evs
 
@@ -105,6 +111,16 @@ def make_model(config):
             s.env.st[i] = [(cur + 1) % len(st.cycle), False, frozenset(), False, stale]
             return []
         expected = None
+        if kind == "old":
+            prev = (cur - 1) % len(st.cycle)
+            try:
+                out = feed(s.dec, entry, st.ident, st.frames[prev][ev[2]])
+            except Exception as ex:  # noqa: BLE001
+                return [{"kind": "exception", "detail": f"{type(ex).__name__}: {ex}", "facts": {"mechanism": "exception"}}]
+            if out is not None:
+                return [{"kind": "unexpected_output", "detail": f"stream {i}: a late frame {ev[2]} of the previous message (msg {prev}) made the decoder return a message "
+                                                                f"while msg {cur} is being received", "_got": observed_payload_int(out) if out.id == FALLBACK_IDS[st.pgn] else None, "_stream": i}]
+            return []
         if kind == "f0":
             j = 0
             e[1] = True
@@ -190,6 +206,8 @@ def classify(v, config, streams):
             log[inst] = {"idx": inst % len(st.cycle), "f0": False, "frames": set()}
         elif ev[0] == "f0":
             log[inst]["f0"] = True
+        elif ev[0] == "old":
+            continue
         else:
             log[inst]["frames"].add(ev[2])
     b = inst
